@@ -10,7 +10,7 @@ import json, os, re, shutil, subprocess, sys, tempfile
 
 HERE = os.path.dirname(os.path.abspath(__file__))
 VERIF = os.path.dirname(HERE)
-REPO = '/repo'
+REPO = os.environ.get('VERIF_SRC_REPO', '/repo')
 TARGET = os.environ.get('SEEDED_TARGET', '/tmp/seeded-target')
 PROPS = ['C%02d' % i for i in range(1, 21) if i != 13]
 
